@@ -1,5 +1,6 @@
 import ScnrVerif.Proofs.Equiv
 import ScnrVerif.Proofs.Minimize
+import ScnrVerif.Proofs.MinimizeTerm
 /-!
 # C03 — minimization preserves what is recognised
 
@@ -55,6 +56,25 @@ theorem quotient_preserves (A : Dfa) (P : List (List Nat)) (hp : GoodPartition A
 theorem model_minimize_preserves (A : Dfa) (hc : goodPartitionCheck A (finalPartition A) = true)
     (hn : 0 < A.trans.length) (cm : Nat → Nat → Bool) (w : List Nat) (t : Nat) :
     acceptsTid (minimize A) cm w t ↔ acceptsTid A cm w t := minimize_preserves A hc hn cm w t
+
+/-- **All automata, no side condition on the computation**: the model of `Minimizer::minimize`
+    (initial partition, refinement to a fixpoint — reached within `numStates` rounds —, quotient)
+    accepts every word for exactly the same terminals as its input, for every automaton whose
+    transition targets are states and whose start state is not accepting. -/
+theorem model_minimize_preserves_all (A : Dfa) (hn : 0 < A.trans.length) (h0 : A.isEnd 0 = false)
+    (htar : ∀ s cc t, (cc, t) ∈ A.outs s → t < A.trans.length)
+    (cm : Nat → Nat → Bool) (w : List Nat) (t : Nat) :
+    acceptsTid (minimize A) cm w t ↔ acceptsTid A cm w t :=
+  minimize_preserves_all A hn h0 htar cm w t
+
+/-- ... and never has more states. -/
+theorem model_minimize_states_le (A : Dfa) (hn : 0 < A.trans.length) (h0 : A.isEnd 0 = false) :
+    (minimize A).trans.length ≤ A.trans.length := minimize_states_le A hn h0
+
+/-- the refinement loop of the model stops at a fixpoint -/
+theorem model_loop_reaches_fixpoint (A : Dfa) (hn : 0 < A.trans.length) (h0 : A.isEnd 0 = false) :
+    refine A (finalPartition A) = finalPartition A :=
+  refineLoop_fixpoint A _ _ (initialPartition_inv2 A hn h0) (by omega)
 
 theorem partition_check_sound (A : Dfa) (P : List (List Nat)) (h : goodPartitionCheck A P = true) :
     GoodPartition A P := goodPartitionCheck_sound A P h
